@@ -86,6 +86,24 @@ def xform_opt(kwargs, info):
     return {"ox": ox, "oy": oy, "sx": sx, "sy": sy, "oh": ohs, "inv": inv}
 
 
+def propagate_env(step, rec):
+    """what PropagateAnchors.tla needs to know about names: code points of every anchor name (and of the numbered names
+    the filter may create), the glyphs of category mark, the glyphs whose name makes them ligature marks"""
+    names = set()
+    for key in ("before", "after"):
+        for g in (rec.get(key) or {}).values():
+            for a in g["anchors"]:
+                names.add(a["n"])
+    for n in list(names):
+        for k in range(1, 10):
+            names.add(f"{n}_{k}")
+    cats = (step.get("lib") or {}).get("public.openTypeCategories") or {}
+    glyphs = sorted(rec.get("before") or {})
+    return {"cps": {n: [ord(ch) for ch in n] for n in sorted(names)},
+            "marks": sorted(n for n, v in cats.items() if v == "mark"),
+            "ligmark": [n for n in glyphs if not n.startswith("_") and "_" in n]}
+
+
 def invoke_history(case):
     """Run one filter object over a sequence of fonts; one record per invocation.
 
@@ -167,6 +185,8 @@ def invoke_history(case):
             except absfont.Inexact as e:
                 rec["skip"] = True
                 rec["why"] = f"inexact options: {e}"
+        if spec["name"] == "PropagateAnchors":
+            opt = propagate_env(step, rec)
         rec["opt"] = opt
         if raised or raised2:
             rec["skip"] = True
